@@ -423,9 +423,9 @@ fn read_back(rpc: &Elem, p: &Param) -> Result<(), String> {
 }
 
 fn run(ctx: &mut Ctx) -> Verdict {
-    // one run in 200: the real transports (R-sim) with one large request among pipelined ones - what
+    // one run in 1500: the real transports (R-sim) with one large request among pipelined ones - what
     // the peer frames by the delimiter must be every request, complete and well-formed, exactly once
-    if ctx.tape.weighted(&[199, 1]) == 1 {
+    if ctx.tape.weighted(&[1499, 1]) == 1 {
         return super::c18_rsim::run_mode(ctx, super::c18_rsim::Mode::BigRequest);
     }
     let n = 1 + ctx.pick(3);
@@ -517,11 +517,11 @@ pub static C10: PropSpec = PropSpec {
     id: "C10",
     simulator: "S-sim + R-sim",
     level: "exploration",
-    runs: |t| if t == Tier::Thorough { 30_000_000 } else { 200_000 },
+    runs: |t| if t == Tier::Thorough { 10_000_000 } else { 200_000 },
     enumerated: |_| 0,
     run,
-    rule: "one run in 200: 2-4 pipelined requests over the real TLS / SSH / local transport of which the first carries a 70-400 KiB subtree filter (larger than a pipe or socket buffer accepts at once); the scripted peer frames by the delimiter and must see every request exactly once, well-formed, the large value complete. Otherwise: 1-3 requests per session, each exercising one text-valued or fragment-valued parameter of one operation (19 parameter sites), or several parameters of one operation at once (commit: confirm-timeout x persist token; commit-configuration: check x confirmed[-timeout] x log x synchronize; edit-config: target x config|url x default-operation x error-option x test-option), every one of which must be read back; text values are concatenations of pieces from an adversarial alphabet (XML metacharacters, quotes, ']]>', the delimiter itself, entity look-alikes, comment/CDATA/PI openers, non-ASCII, empty); fragments come from a well-formed fragment generator (namespaces, attributes, nested elements, rewrite styles) and never contain the delimiter. The server frames by delimiter and parses with the harness's strict parser. Non-trivial = at least one request was sent; distinct = distinct event-log hash (includes the parameter values)",
-    components: &[("netconf session + request serialisers (message/**)", "real"), ("transport", "stub: in-memory; one run in 200: the real TLS / SSH / local transports (send side under back-pressure) against the scripted R-sim peer"), ("NETCONF server", "model: frames by ]]>]]>, strict XML parser, reads values back")],
+    rule: "one run in 1500: 2-4 pipelined requests over the real TLS / SSH / local transport of which the first carries a 70-260 KiB subtree filter (larger than a pipe or socket buffer accepts at once); the scripted peer frames by the delimiter and must see every request exactly once, well-formed, the large value complete. Otherwise: 1-3 requests per session, each exercising one text-valued or fragment-valued parameter of one operation (19 parameter sites), or several parameters of one operation at once (commit: confirm-timeout x persist token; commit-configuration: check x confirmed[-timeout] x log x synchronize; edit-config: target x config|url x default-operation x error-option x test-option), every one of which must be read back; text values are concatenations of pieces from an adversarial alphabet (XML metacharacters, quotes, ']]>', the delimiter itself, entity look-alikes, comment/CDATA/PI openers, non-ASCII, empty); fragments come from a well-formed fragment generator (namespaces, attributes, nested elements, rewrite styles) and never contain the delimiter. The server frames by delimiter and parses with the harness's strict parser. Non-trivial = at least one request was sent; distinct = distinct event-log hash (includes the parameter values)",
+    components: &[("netconf session + request serialisers (message/**)", "real"), ("transport", "stub: in-memory; one run in 1500: the real TLS / SSH / local transports (send side under back-pressure) against the scripted R-sim peer"), ("NETCONF server", "model: frames by ]]>]]>, strict XML parser, reads values back")],
     assumptions: &[
         "decided by generated parameter values; schedule fixed",
         "attribute-valued parameters (XPath select) are generated without tab/newline characters (attribute-value normalisation would alter them on any XML serialiser that writes them literally)",
